@@ -77,6 +77,12 @@ type toyWPriv struct {
 	c *toyW
 }
 
+// The toy keys implement the optional HardenedOnly method and answer false: non-hardened derivation
+// is defined for them (the method's result decides, not its presence).
+func (p *toyWPriv) HardenedOnly() bool { return false }
+func (p *toyWPub) HardenedOnly() bool  { return false }
+func (k *toySKey) HardenedOnly() bool  { return false }
+
 func (p *toyWPriv) Bytes() []byte   { return p.k.FillBytes(make([]byte, 32)) }
 func (p *toyWPriv) IsPrivate() bool { return true }
 func (p *toyWPriv) Public() slip10.Key {
